@@ -25,7 +25,7 @@ ASSUMPTIONS = _x1.X1_ASSUMPTIONS + [
 F = ("raise", "fail")
 _q = ["bare", "barecp", "count2", "scan2", "nested", "cleanup", "tworuns"]
 SPECS = {
-    "quick": [spec(k, bound=1, faults=F) for k in _q] + [spec("bare", bound=1, faults=F, a=1)],
+    "quick": [spec(k, bound=1, faults=F) for k in _q] + [spec("bare", bound=1, faults=F, a=1)] + [spec("tiny", bound=2, faults=F)],
     "thorough": [spec(k, bound=1, faults=F, a=a, rr=rr) for k in _q + ["fly1", "monitor1", "clearcp", "grid22s"] for a in (0, 1) for rr in (0, 1)]
     + [spec(k, bound=2, faults=F) for k in ("bare", "barecp", "tiny")],
 }
